@@ -1,3 +1,6 @@
 import CstModel.Props.C13
 open Cst.C13
-#print axioms placeholder
+#print axioms range_getOrAdd
+#print axioms findCovering_contains
+#print axioms cover_contains
+#print axioms cover_total
